@@ -30,6 +30,7 @@ use lance_core::utils::mask::RowIdTreeMap;
 use lance_file::version::LanceFileVersion;
 use lance_index::metrics::NoOpMetricsCollector;
 use lance_io::utils::CachedFileSize;
+use lance_table::feature_flags::can_write_dataset;
 use lance_table::format::{
     is_detached_version, pb, DataStorageFormat, DeletionFile, Fragment, IndexMetadata, Manifest,
     WriterVersion, DETACHED_VERSION_MASK,
@@ -603,6 +604,23 @@ pub(crate) fn detect_overlapping_fragments(
     }
 }
 
+/// Refuse to commit to a table whose writer feature flags include a flag this
+/// version of Lance does not know.
+fn check_writer_feature_flags(manifest: &Manifest) -> Result<()> {
+    if !can_write_dataset(manifest.writer_feature_flags) {
+        return Err(Error::NotSupported {
+            source: format!(
+                "This dataset cannot be written by this version of Lance. \
+                 Please upgrade Lance to write to this dataset.\n Flags: {}",
+                manifest.writer_feature_flags
+            )
+            .into(),
+            location: location!(),
+        });
+    }
+    Ok(())
+}
+
 pub(crate) async fn do_commit_detached_transaction(
     dataset: &Dataset,
     object_store: &ObjectStore,
@@ -611,6 +629,8 @@ pub(crate) async fn do_commit_detached_transaction(
     write_config: &ManifestWriteConfig,
     commit_config: &CommitConfig,
 ) -> Result<(Manifest, ManifestLocation)> {
+    check_writer_feature_flags(&dataset.manifest)?;
+
     // We don't strictly need a transaction file but we go ahead and create one for
     // record-keeping if nothing else.
     let transaction_file = if !write_config.disable_transaction_file() {
@@ -802,6 +822,10 @@ pub(crate) async fn commit_transaction(
 
             transaction = rebase.finish(&dataset).await?;
         }
+
+        // The latest version may have been written by a newer Lance that requires
+        // writer features we do not know about.
+        check_writer_feature_flags(&dataset.manifest)?;
 
         let transaction_file = if !write_config.disable_transaction_file() {
             write_transaction_file(object_store, &dataset.base, &transaction).await?
